@@ -27,7 +27,7 @@ func runC11(r *Run) {
 	r.Rule("R2", "OWN: MintCoins/BurnCoins(…, liquidvesting, …) only in Liquidate/Redeem; SetDenom/UpdateDenomPeriods/DeleteDenom/SetDenomCounter called only from the keeper's denom functions, Redeem, genesis and app/upgrades")
 
 	isMod := func(v ssa.Value) bool { s, ok := constString(v); return ok && s == modName }
-	depAmt := func(v ssa.Value, msgType string) bool { return backSlice(v).HasField(msgType, "Amount") }
+	depAmt := func(v ssa.Value, msgType string) bool { return quantityIsMsgAmount(v, msgType) }
 
 	if fn, ok := P.FnOK("(" + lk + ".Keeper).Liquidate"); ok {
 		where := P.Pos(fnPos(fn))
@@ -61,7 +61,7 @@ func runC11(r *Run) {
 					return false
 				}
 				s := backSlice(argN(ci.Instr, 2))
-				if s.HasField("MsgLiquidate", "Amount") && s.HasCall(func(g CallInfo) bool { return g.Name == "CreateDenom" }) {
+				if quantityIsMsgAmount(argN(ci.Instr, 2), "MsgLiquidate") && s.HasCall(func(g CallInfo) bool { return g.Name == "CreateDenom" }) {
 					minted = stripValue(argN(ci.Instr, 2))
 					return true
 				}
@@ -148,7 +148,7 @@ func runC11(r *Run) {
 					return false
 				}
 				s := backSlice(argN(ci.Instr, 3))
-				return s.HasField("MsgRedeem", "Amount") && s.HasCall(func(g CallInfo) bool { return g.Name == "GetOriginalDenom" }) && backSlice(argN(ci.Instr, 2)).HasField("MsgRedeem", "RedeemTo")
+				return quantityIsMsgAmount(argN(ci.Instr, 3), "MsgRedeem") && s.HasCall(func(g CallInfo) bool { return g.Name == "GetOriginalDenom" }) && backSlice(argN(ci.Instr, 2)).HasField("MsgRedeem", "RedeemTo")
 			}},
 		}
 		for _, ev := range evs {
@@ -225,6 +225,28 @@ func runC11(r *Run) {
 	} else {
 		r.Bad("R4", "anchor/ReadPastPeriodCount", "", "not found")
 	}
+	// the shift is measured on the schedule it belongs to: the account's own start time together with the
+	// account's complete lockup period list (period lengths are relative, so a list without the past periods
+	// measures from the wrong origin), at the block time
+	nShift := 0
+	for _, fn := range P.Funcs {
+		if isTestSupport(P, fn) || fn.Synthetic != "" {
+			continue
+		}
+		eachCall(fn, func(ci CallInfo) {
+			if ci.Name != "CurrentPeriodShift" || ci.Static == nil || !pathHasSuffix(ci.PkgPath, "x/liquidvesting/types") {
+				return
+			}
+			nShift++
+			a := ci.Instr.Common().Args
+			okStart := backSlice(a[0]).HasField("ClawbackVestingAccount", "StartTime") || backSlice(a[0]).HasCall(func(g CallInfo) bool { return g.Name == "GetStartTime" })
+			okNow := backSlice(a[1]).HasCall(func(g CallInfo) bool { return g.Name == "BlockTime" })
+			okPeriods := isFieldLoad(a[2], "ClawbackVestingAccount", "LockupPeriods")
+			r.Check(okStart && okNow && okPeriods, "R4", fnID(fn)+"#shift-arguments", P.Pos(instrPos(ci.Instr)), "CurrentPeriodShift(account start, block time, account.LockupPeriods)",
+				fmt.Sprintf("CurrentPeriodShift is not called with the account's own start (%v), the block time (%v) and the account's complete LockupPeriods (%v): the elapsed part of the current period is measured on a different schedule and the liquid token unlocks at the wrong time", okStart, okNow, okPeriods))
+		})
+	}
+	r.Floor("R4", "CurrentPeriodShift call sites", nShift, 1)
 
 	// the redeemed schedule is merged relative to the liquid denom's own start
 	r.Rule("R5", "FLOW.grant-start (same rule code as C09 R5): the start time handed to addGrant derives from the grant's own start and never from the target account's StartTime — otherwise Redeem into an account that started before the liquid denom releases the redeemed coins earlier than the original schedule")
@@ -301,4 +323,49 @@ func runC11(r *Run) {
 		})
 	}
 	r.Floor("R2", "denom store writer call sites", n, 7)
+}
+
+// quantityIsMsgAmount: the QUANTITY of the coins value v is the message's Amount — not merely some value
+// that mentions msg.Amount (e.g. a balance looked up by msg.Amount.Denom). Every sdk.NewCoin in v's slice
+// takes its amount argument from loads of <msgType>.Amount only (no call in that argument's slice); if the
+// coins are built without NewCoin they are the message's Coin itself wrapped by NewCoins.
+func quantityIsMsgAmount(v ssa.Value, msgType string) bool {
+	s := backSlice(v)
+	if !s.HasField(msgType, "Amount") {
+		return false
+	}
+	pure := func(x ssa.Value) bool {
+		xs := backSlice(x)
+		if !xs.HasField(msgType, "Amount") {
+			return false
+		}
+		return !xs.Any(func(y ssa.Value) bool { _, isCall := y.(*ssa.Call); return isCall })
+	}
+	nNewCoin, ok := 0, true
+	s.Any(func(x ssa.Value) bool {
+		c, isCall := x.(*ssa.Call)
+		if !isCall {
+			return false
+		}
+		ci := callInfo(c)
+		switch ci.Name {
+		case "NewCoin":
+			nNewCoin++
+			if a := c.Call.Args; len(a) != 2 || !pure(a[1]) {
+				ok = false
+			}
+		}
+		return false
+	})
+	if !ok {
+		return false
+	}
+	if nNewCoin == 0 {
+		// no constructor: only the message's own Coin may flow in — no call other than the NewCoins wrapper
+		return !s.Any(func(x ssa.Value) bool {
+			c, isCall := x.(*ssa.Call)
+			return isCall && callInfo(c).Name != "NewCoins"
+		})
+	}
+	return true
 }
